@@ -28,6 +28,7 @@
   still compared, against `writeAt` of the cells written: SfProofs/AbsBridgeLossless.lean), no hole / tail claims.
 -/
 import SfProofs.AbsBridgeRun
+import SfProofs.AbsBridgeOpen
 import SfProofs.AbsRun
 import SfProps.C05
 import SfProps.C01
@@ -102,6 +103,20 @@ theorem handle_run_accepted (h : H) (s : Store) (strict : Bool) (loss : Ty → B
     · simp only [hx, absMode, reduceCtorEq, if_false]; rw [hw0 hx]; rfl
     · simp only [hx, absMode, if_true]; rw [hw1 hx]; omega
 
+/-- EVERY OPENED HANDLE.  No hypothesis on the state but the successful open (`openHandle … = .ok h s`, any mode, RAW / AU /
+    WAV, any encoding the container offers) — and, for SFM_RDWR, that the opened file is one the RDWR invariant covers
+    (`C08Refine.RwInv_initial_new / _raw / _tight / _padded`, `prepopulated_opens_rdwr`): the positions an open leaves are the
+    ones `St.init` assumes (`open_facts`), the invariant holds (`C05.HInv_initial`), so every judged operation list is accepted. -/
+theorem opened_run_accepted (ix : Nat) (s0 : Store) (mode : Sf.Mode) (fmt : Nat) (ch sr : Int) (h : H) (s : Store)
+    (ho : openHandle ix s0 mode fmt ch sr = .ok h s) (hrw : mode = .rw → RwInv h s) (strict : Bool) (loss : Ty → Bool)
+    (ops : List Sf.Op) (hj : ∀ op ∈ ops, Judged (geomOf h strict loss) h op) (hcl : CloseLast ops) :
+    Abs.holdsOn (geomOf h strict loss) (absRef h s) (fun _ => true) (transcript h s ops) = .ok ops.length := by
+  obtain ⟨hm, hr, hf, hw⟩ := open_facts ix s0 mode fmt ch sr h s ho
+  refine handle_run_accepted h s strict loss ops
+    ⟨HInv_openHandle ix s0 mode fmt ch sr h s ho, hf, fun hx => hrw (by rw [← hm]; exact hx)⟩ (fun _ => hr) (fun hx => ?_) (fun hx => ?_) hj hcl
+  · rw [hw, ← hm, hx]; rfl
+  · rw [hw, ← hm, hx]; rfl
+
 /-- … in the words of the task: a model-conformant library is never flagged, at no line, with no clause -/
 theorem model_never_flagged (h : H) (s : Store) (strict : Bool) (loss : Ty → Bool) (ops : List Sf.Op) (bi : BInv h s)
     (hr0 : h.mode ≠ .w → h.rpos = 0) (hw0 : h.mode = .w → h.wpos = 0) (hw1 : h.mode = .rw → h.wpos = h.frames)
@@ -155,6 +170,16 @@ example : (transcript C05.exH C05.exStore exOps).map (fun l => (l.2.ret, l.2.err
 example : absRef C05.exH C05.exStore .s16 = #[1, 2, 3, 4, 5, 6] ∧
     ((transcript C05.exH C05.exStore exOps).map (fun l => l.2.data)).take 3 = [#[1, 2, 3, 4], #[], #[3, 4, 5, 6, 0xA5A5, 0xA5A5, 0xA5A5, 0xA5A5, 0xA5A5, 0xA5A5]] := by
   decide
+
+/-- the same through `opened_run_accepted`: nothing is assumed but the open -/
+example : Abs.holdsOn (geomOf C05.exH true) (absRef C05.exH C05.exStore) (fun _ => true) (transcript C05.exH C05.exStore exOps)
+    = .ok 10 :=
+  opened_run_accepted 0 C05.exStore .r 0x040002 2 8000 C05.exH C05.exStore (by rfl) (fun h => by cases h) true _ exOps
+    (by
+      intro op hop
+      simp only [exOps, List.mem_cons, List.mem_nil_iff, or_false] at hop
+      rcases hop with h | h | h | h | h | h | h | h | h | h <;> subst h <;> simp [Judged, convCmd])
+    (by simp [exOps, CloseLast, isClose])
 
 def exWOps : List Sf.Op := [.write 0 .s16 true 2 [1, 2, 3, 4, 99], .seek 0 0 1, .write 0 .s16 false 3 [5, 6, 7], .seek 0 0 0, .close 0]
 example : Abs.holdsOn (geomOf C05.exW false) (absRef C05.exW {}) (fun _ => true) (transcript C05.exW {} exWOps) = .ok 5 :=
